@@ -19,7 +19,7 @@ SEP_CONFIGS = [(",", "."), (".", ","), (".", ""), (",", "")]
 POOL_WORDS = ["zorp", "blip", "quux", "frob", "glorp", "snarf", "wibble", "foo", "bar", "baz", "qux"]
 
 
-def all_config_words():
+def all_config_words(include_zones=True):
     """every word that means something to the calculator, lower-cased (Appendix B)"""
     c = config_json()
     words = set()
@@ -27,8 +27,9 @@ def all_config_words():
         words.add(k.lower())
     for k in c.get("currency_alias", {}):
         words.add(k.lower())
-    for k in c.get("timezones", {}):
-        words.add(k.lower())
+    if include_zones:
+        for k in c.get("timezones", {}):
+            words.add(k.lower())
     for k in c.get("alias", {}):
         words.add(k.lower())
     for t in c.get("types", []):
@@ -357,3 +358,86 @@ def dur_parts_text(parts, lang, widx=0, joiner=" "):
         ws = words[p["u"]]
         out.append("%d %s" % (p["n"], ws[(widx + i) % len(ws)]))
     return joiner.join(out)
+
+
+# ---------------------------------------------------------------------------------------------
+# zones and clock times (C11)
+# ---------------------------------------------------------------------------------------------
+import re as _re
+
+
+def non_zone_words():
+    c = config_json()
+    words = all_config_words(include_zones=False)
+    other = set()
+    for k in c.get("currencies", {}):
+        other.add(k.lower())
+    for k in c.get("currency_alias", {}):
+        other.add(k.lower())
+    return words, other
+
+
+GMT_FORMS = [("GMT+5:30", 330), ("GMT-3:30", -210), ("GMT+10", 600), ("GMT-10", -600), ("GMT+1", 60), ("GMT-11:30", -690),
+             ("GMT+12:45", 765), ("GMT+0530", 330)]
+
+
+def usable_zones():
+    """zone table entries the zone syntax can express and that mean nothing else; [{'name','off'}] sorted by name"""
+    c = config_json()
+    words, _ = non_zone_words()
+    out = []
+    for name, off in sorted(c["timezones"].items()):
+        if not _re.match(r"^[A-Z]{2,4}$", name):
+            continue
+        if name.lower() in words:
+            continue
+        out.append({"name": name, "off": off})
+    return out
+
+
+def zone_subset(zones, n=40):
+    """stratified by offset: both signs, zero, half- and quarter-hour offsets first"""
+    by_off = {}
+    for z in zones:
+        by_off.setdefault(z["off"], []).append(z)
+    offs = sorted(by_off, key=lambda o: (o % 60 == 0, abs(o) % 7, o))
+    out = []
+    i = 0
+    while len(out) < n and i < 4:
+        for o in offs:
+            if len(by_off[o]) > i and len(out) < n:
+                out.append(by_off[o][i])
+        i += 1
+    return sorted(out, key=lambda z: z["name"])
+
+
+def time_spellings(w):
+    """every admissible spelling of wall second-of-day w (12:xx am/pm left out)"""
+    h, m, s = w // 3600, w % 3600 // 60, w % 60
+    out = [("hms", "%d:%02d:%02d" % (h, m, s)), ("0hms", "%02d:%02d:%02d" % (h, m, s))]
+    if s == 0:
+        out.append(("hm", "%d:%02d" % (h, m)))
+        if 1 <= h <= 11:
+            out.append(("hm_am", "%d:%02d am" % (h, m)))
+            out.append(("hm_AM", "%d:%02dAM" % (h, m)))
+        if 13 <= h <= 23:
+            out.append(("hm_pm", "%d:%02d pm" % (h - 12, m)))
+            out.append(("hm_PM", "%02d:%02d PM" % (h - 12, m)))
+        if m == 0:
+            if 1 <= h <= 11:
+                out.append(("h_am", "%d am" % h))
+            if 13 <= h <= 23:
+                out.append(("h_pm", "%dpm" % (h - 12)))
+    return out
+
+
+def zone_text(z, case="upper"):
+    n = z["name"]
+    if case == "lower" and not n.startswith("GMT"):
+        return n.lower()
+    return n
+
+
+def time_text(w, z, sp, zcase="upper"):
+    t = dict(time_spellings(w))[sp]
+    return t if not z["name"] else t + " " + zone_text(z, zcase)
